@@ -284,6 +284,10 @@ class Scene:
             Dictionary describing the state of the controls.
         """
 
+        # An aircraft added under a name already in the scene replaces the old one
+        if airplane_name in self._airplanes:
+            self.remove_aircraft(airplane_name)
+
         # Determine the local wind vector for setting the state of the aircraft
         aircraft_position = import_value("position", state, self._unit_sys, [0.0, 0.0, 0.0])
         v_wind = self._get_wind(aircraft_position)
@@ -317,7 +321,7 @@ class Scene:
             raise RuntimeError("The scene has no aircraft named {0}.".format(airplane_name))
 
         # Update quantities
-        self._N -= deleted_aircraft.get_num_cps()
+        self._N -= deleted_aircraft.N
         self._num_aircraft -= 1
 
         # Reinitialize arrays
